@@ -444,10 +444,16 @@ def spec_scripts(ctx):
     for c, o in getattr(ctx, "script_cases", []):
         if o["ret"][0] != "ret" or not o["log"] or c["test_success"]:
             continue
-        if any(a[0] == "raise" for a in c["script"][:len(o["log"])]) or (c["dflt"][0] == "raise" and len(o["log"]) > len(c["script"])):
-            continue
         v = o["ret"][1]
         answers = [(c["script"][k] if k < len(c["script"]) else c["dflt"]) for k in range(len(o["log"]))]
+        log = o["log"]
+        raises = [k for k, a in enumerate(answers) if a[0] == "raise"]
+        if raises:
+            # a time limit that fires after some minimize calls have completed: the handler salvages the best point found so far, and
+            # the same statement holds for it (the calls before the interrupt); other exceptions propagate or give NaN (not judged here)
+            if answers[raises[0]][1] != "timeout" or raises[0] == 0:
+                continue
+            answers, log = answers[:raises[0]], log[:raises[0]]
         if isinstance(v, str) or v >= 8 * 10 ** 100:
             continue
         if any(len(a[1]) != c["nparam"] for a in answers):       # outside the oracle contract (len(x) == nparam)
@@ -458,7 +464,7 @@ def spec_scripts(ctx):
         # every answer is >= the returned value unless it is NaN or shadowed by a NaN in its iteration (np.argmin) --
         # the plain spec: the returned value occurs among the answers, with matching back-transformed parameters
         hits = []
-        for (st, sg), a in zip(o["log"], answers):
+        for (st, sg), a in zip(log, answers):
             if num(a[2]) == v:
                 if sg is None:
                     p = list(a[1])
